@@ -80,7 +80,6 @@ func TestGUIDConversion(t *testing.T) {
 			u, err := oabi.FromEFIGUID(b)
 			return []val{{b: u[:]}}, err
 		},
-		decExact: true,
 	}
 	s.enc = putEnc(16, s.put)
 	runFlat(t, s, ev.Scale(2000, 12000))
@@ -240,7 +239,6 @@ func TestSevEsResetBlock(t *testing.T) {
 			}
 			return []val{{u: uint64(m.Addr)}, {u: uint64(m.Size)}, {b: m.Guid}}, nil
 		},
-		decExact: true,
 	}
 	s.enc = putEnc(s.size, s.put)
 	runFlat(t, s, ev.Scale(2000, 12000))
@@ -472,19 +470,27 @@ func TestTDXMetadata(t *testing.T) {
 		case "count-1":
 			if n > 0 {
 				b[12]--
+			} else {
+				edit = "identity"
 			}
 		case "count-any":
 			c := rapid.IntRange(0, tdxCountCap).Draw(t, "cnt")
 			b[12], b[13] = byte(c), byte(c>>8)
 		case "setbyte":
-			p := rapid.IntRange(0, len(b)-1).Draw(t, "pos")
-			if p < 12 || p > 15 {
-				b[p] = rapid.Byte().Draw(t, "x")
+			// any byte but the count field (its edits are the count-* cases)
+			p := rapid.IntRange(0, len(b)-5).Draw(t, "pos")
+			if p >= 12 {
+				p += 4
+			}
+			if p < len(b) {
+				b[p] ^= byte(rapid.IntRange(1, 255).Draw(t, "x"))
+			} else {
+				edit = "identity"
 			}
 		}
 		b = exact(b)
 		checkTDXBytes(t, b, func(class string) {
-			ev.Case(name, true, "bytes/"+edit+"/"+class, "bytes/"+edit+"/"+class, func() any { return map[string]any{"edit": edit, "len": len(b)} })
+			ev.Case(name, edit != "identity", "bytes/"+edit+"/"+class, "bytes/"+edit+"/"+class, func() any { return map[string]any{"edit": edit, "len": len(b)} })
 		})
 	})
 }
